@@ -23,7 +23,7 @@ ASSUMPTIONS = [
     "at most k states more than the minimal reference automaton",
     "element 'metadata' is judged against 'at most one child of any name' (C05), not its empty children section",
 ]
-REQUIRED = ["failfast_accept", "failfast_reject", "collecting_accept", "collecting_reject", "oracle_crosschecks"]
+REQUIRED = ["collecting_calls_with_prefilled_list", "failfast_accept", "failfast_reject", "collecting_accept", "collecting_reject", "oracle_crosschecks"]
 EXHAUSTIVE = {"quick": False, "thorough": False}
 
 FOREIGN_NAME = "verifForeignElement"
@@ -76,6 +76,15 @@ def _materialise(seq):
     return [FOREIGN_NAME if a == relang.FOREIGN else a for a in seq]
 
 
+_EARLIER = []
+
+
+def _earlier_entry():
+    if not _EARLIER:
+        _EARLIER.append((emlkit.ValidationError.UNKNOWN_NODE, "entry left by an earlier validation", emlkit.Node("verifEarlier")))
+    return _EARLIER[0]
+
+
 def judge(ctx, rule_name, element, seq, expected, stats=None):
     """Runs the real validator in both modes on one sequence and compares with `expected`."""
     names = _materialise(seq)
@@ -84,8 +93,18 @@ def judge(ctx, rule_name, element, seq, expected, stats=None):
     for mode in ("failfast", "collecting"):
         parent = emlkit.make_node(rule_name, element, names)
         errs = None if mode == "failfast" else []
+        prefilled = mode == "collecting" and (len(seq) + len(rule_name)) % 2 == 1
+        if prefilled:
+            # an error list that already holds entries (validate.tree shares one list across nodes): only what this call
+            # appends counts, and what was there must stay
+            errs.append(_earlier_entry())
+            ctx.count("collecting_calls_with_prefilled_list")
         try:
             emlkit.validate_as(rule_name, parent, errs)
+            if prefilled:
+                if not errs or errs[0] is not _EARLIER[0]:
+                    ctx.violation("earlier-entries-disturbed|collecting", f"{rule_name}: entries present before the call were changed", wit)
+                errs = errs[1:]
             if mode == "failfast":
                 got = relang.ACCEPT
             elif not errs:
